@@ -1,0 +1,213 @@
+//go:build verif
+
+package modbus
+
+// Contracts for the govc verification-condition generator (/verif/govc).
+// This file is comment-only and guarded by the build tag `verif`.
+
+//@ spec func be16(b []byte, i int) uint16 = uint16(b[i])<<8 | uint16(b[i+1])
+
+//@ func (*PDU).RespReadRegs
+//@   props C19
+//@   mode bv
+//@   requires p != nil
+//@   ensures [C19] err == nil ==> len(res0) == int(p.Data[0]/2) && 1+2*len(res0) <= len(p.Data)
+//@   ensures [C19] err == nil ==> forall i int :: 0 <= i && i < len(res0) ==> res0[i] == be16(p.Data, 1+2*i)
+//@   ensures [C19] err != nil ==> len(res0) == 0
+//@   loop 1:
+//@     invariant 0 <= i && i <= int(count)
+//@     invariant len(ret) == int(count) && isfresh(ret)
+//@     invariant forall k int :: 0 <= k && k < i ==> ret[k] == be16(p.Data, 1+2*k)
+//@     modifies ret
+//@     decreases int(count) - i
+
+// ---- data.go: register <-> integer/float conversions (C19) --------------------
+
+//@ spec func u32of(hi uint16, lo uint16) uint32 = uint32(hi)<<16 | uint32(lo)
+//@ spec func hi16(v uint32) uint16 = uint16(v >> 16)
+//@ spec func lo16(v uint32) uint16 = uint16(v)
+
+//@ lemma [C19] words_split_join(v uint32) bv: u32of(hi16(v), lo16(v)) == v
+//@ lemma [C19] words_join_split(a uint16, b uint16) bv: hi16(u32of(a, b)) == a && lo16(u32of(a, b)) == b
+//@ lemma [C19] int16_roundtrip(r uint16) bv: uint16(int16(r)) == r
+//@ lemma [C19] int32_roundtrip(v uint32, w int32) bv: uint32(int32(v)) == v && int32(uint32(w)) == w
+
+//@ func PutUint16Array
+//@   props C19
+//@   mode bv
+//@   ensures [C19] len(result) == 2*len(value)
+//@   ensures [C19] forall k int :: 0 <= k && k < len(value) ==> be16(result, 2*k) == value[k]
+//@   loop 1:
+//@     invariant -1 <= rangeindex && rangeindex < len(value) || rangeindex == -1
+//@     invariant len(data) == 2*len(value) && isfresh(data)
+//@     invariant forall k int :: 0 <= k && k <= rangeindex ==> be16(data, 2*k) == value[k]
+//@     modifies data
+//@     decreases len(value) - rangeindex
+
+//@ func Uint16Array
+//@   props C19
+//@   mode bv
+//@   ensures [C19] len(result) == len(data)/2
+//@   ensures [C19] forall k int :: 0 <= k && k < len(result) ==> result[k] == be16(data, 2*k)
+//@   loop 1:
+//@     invariant -1 <= rangeindex && rangeindex < len(ret) || rangeindex == -1
+//@     invariant len(ret) == len(data)/2 && isfresh(ret)
+//@     invariant forall k int :: 0 <= k && k <= rangeindex ==> ret[k] == be16(data, 2*k)
+//@     modifies ret
+//@     decreases len(ret) - rangeindex
+
+//@ func RegsToInt16
+//@   props C19
+//@   mode bv
+//@   ensures [C19] len(result) == len(in)
+//@   ensures [C19] forall k int :: 0 <= k && k < len(in) ==> result[k] == int16(in[k])
+//@   loop 1:
+//@     invariant -1 <= rangeindex && rangeindex < len(in) || rangeindex == -1
+//@     invariant len(ret) == len(in) && isfresh(ret)
+//@     invariant forall k int :: 0 <= k && k <= rangeindex ==> ret[k] == int16(in[k])
+//@     modifies ret
+//@     decreases len(in) - rangeindex
+
+//@ func RegsToUint32
+//@   props C19
+//@   mode bv
+//@   ensures [C19] len(result) == len(in)/2
+//@   ensures [C19] forall k int :: 0 <= k && k < len(result) ==> result[k] == u32of(in[2*k], in[2*k+1])
+//@   loop 1:
+//@     invariant -1 <= rangeindex && rangeindex < len(ret) || rangeindex == -1
+//@     invariant len(ret) == len(in)/2 && isfresh(ret)
+//@     invariant forall k int :: 0 <= k && k <= rangeindex ==> ret[k] == u32of(in[2*k], in[2*k+1])
+//@     modifies ret
+//@     decreases len(ret) - rangeindex
+
+//@ func RegsToUint32SwapWords
+//@   props C19
+//@   mode bv
+//@   ensures [C19] len(result) == len(in)/2
+//@   ensures [C19] forall k int :: 0 <= k && k < len(result) ==> result[k] == u32of(in[2*k+1], in[2*k])
+//@   loop 1:
+//@     invariant -1 <= rangeindex && rangeindex < len(ret) || rangeindex == -1
+//@     invariant len(ret) == len(in)/2 && isfresh(ret)
+//@     invariant forall k int :: 0 <= k && k <= rangeindex ==> ret[k] == u32of(in[2*k+1], in[2*k])
+//@     modifies ret
+//@     decreases len(ret) - rangeindex
+
+//@ func RegsToInt32
+//@   props C19
+//@   mode bv
+//@   ensures [C19] len(result) == len(in)/2
+//@   ensures [C19] forall k int :: 0 <= k && k < len(result) ==> result[k] == int32(u32of(in[2*k], in[2*k+1]))
+//@   loop 1:
+//@     invariant -1 <= rangeindex && rangeindex < len(ret) || rangeindex == -1
+//@     invariant len(ret) == len(in)/2 && isfresh(ret)
+//@     invariant forall k int :: 0 <= k && k <= rangeindex ==> ret[k] == int32(u32of(in[2*k], in[2*k+1]))
+//@     modifies ret
+//@     decreases len(ret) - rangeindex
+
+//@ func RegsToInt32SwapWords
+//@   props C19
+//@   mode bv
+//@   ensures [C19] len(result) == len(in)/2
+//@   ensures [C19] forall k int :: 0 <= k && k < len(result) ==> result[k] == int32(u32of(in[2*k+1], in[2*k]))
+//@   loop 1:
+//@     invariant -1 <= rangeindex && rangeindex < len(ret) || rangeindex == -1
+//@     invariant len(ret) == len(in)/2 && isfresh(ret)
+//@     invariant forall k int :: 0 <= k && k <= rangeindex ==> ret[k] == int32(u32of(in[2*k+1], in[2*k]))
+//@     modifies ret
+//@     decreases len(ret) - rangeindex
+
+//@ func RegsToFloat32
+//@   props C19
+//@   mode bv
+//@   ensures [C19] len(result) == len(in)/2
+//@   ensures [C19] forall k int :: 0 <= k && k < len(result) ==> bits32(result[k]) == u32of(in[2*k], in[2*k+1])
+//@   loop 1:
+//@     invariant -1 <= rangeindex && rangeindex < len(ret) || rangeindex == -1
+//@     invariant len(ret) == len(in)/2 && isfresh(ret)
+//@     invariant forall k int :: 0 <= k && k <= rangeindex ==> bits32(ret[k]) == u32of(in[2*k], in[2*k+1])
+//@     modifies ret
+//@     decreases len(ret) - rangeindex
+
+//@ func RegsToFloat32SwapWords
+//@   props C19
+//@   mode bv
+//@   ensures [C19] len(result) == len(in)/2
+//@   ensures [C19] forall k int :: 0 <= k && k < len(result) ==> bits32(result[k]) == u32of(in[2*k+1], in[2*k])
+//@   loop 1:
+//@     invariant -1 <= rangeindex && rangeindex < len(ret) || rangeindex == -1
+//@     invariant len(ret) == len(in)/2 && isfresh(ret)
+//@     invariant forall k int :: 0 <= k && k <= rangeindex ==> bits32(ret[k]) == u32of(in[2*k+1], in[2*k])
+//@     modifies ret
+//@     decreases len(ret) - rangeindex
+
+//@ func Uint32ToRegs
+//@   props C19
+//@   mode bv
+//@   ensures [C19] len(result) == 2*len(in)
+//@   ensures [C19] forall k int :: 0 <= k && k < len(in) ==> result[2*k] == hi16(in[k]) && result[2*k+1] == lo16(in[k])
+//@   loop 1:
+//@     invariant -1 <= rangeindex && rangeindex < len(in) || rangeindex == -1
+//@     invariant len(ret) == 2*len(in) && isfresh(ret)
+//@     invariant forall k int :: 0 <= k && k <= rangeindex ==> ret[2*k] == hi16(in[k]) && ret[2*k+1] == lo16(in[k])
+//@     modifies ret
+//@     decreases len(in) - rangeindex
+
+//@ func Uint32ToRegsSwapRegs
+//@   props C19
+//@   mode bv
+//@   ensures [C19] len(result) == 2*len(in)
+//@   ensures [C19] forall k int :: 0 <= k && k < len(in) ==> result[2*k] == lo16(in[k]) && result[2*k+1] == hi16(in[k])
+//@   loop 1:
+//@     invariant -1 <= rangeindex && rangeindex < len(in) || rangeindex == -1
+//@     invariant len(ret) == 2*len(in) && isfresh(ret)
+//@     invariant forall k int :: 0 <= k && k <= rangeindex ==> ret[2*k] == lo16(in[k]) && ret[2*k+1] == hi16(in[k])
+//@     modifies ret
+//@     decreases len(in) - rangeindex
+
+//@ func Int32ToRegs
+//@   props C19
+//@   mode bv
+//@   ensures [C19] len(result) == 2*len(in)
+//@   ensures [C19] forall k int :: 0 <= k && k < len(in) ==> result[2*k] == hi16(uint32(in[k])) && result[2*k+1] == lo16(uint32(in[k]))
+//@   loop 1:
+//@     invariant -1 <= rangeindex && rangeindex < len(in) || rangeindex == -1
+//@     invariant len(ret) == 2*len(in) && isfresh(ret)
+//@     invariant forall k int :: 0 <= k && k <= rangeindex ==> ret[2*k] == hi16(uint32(in[k])) && ret[2*k+1] == lo16(uint32(in[k]))
+//@     modifies ret
+//@     decreases len(in) - rangeindex
+
+//@ func Int32ToRegsSwapWords
+//@   props C19
+//@   mode bv
+//@   ensures [C19] len(result) == 2*len(in)
+//@   ensures [C19] forall k int :: 0 <= k && k < len(in) ==> result[2*k] == lo16(uint32(in[k])) && result[2*k+1] == hi16(uint32(in[k]))
+//@   loop 1:
+//@     invariant -1 <= rangeindex && rangeindex < len(in) || rangeindex == -1
+//@     invariant len(ret) == 2*len(in) && isfresh(ret)
+//@     invariant forall k int :: 0 <= k && k <= rangeindex ==> ret[2*k] == lo16(uint32(in[k])) && ret[2*k+1] == hi16(uint32(in[k]))
+//@     modifies ret
+//@     decreases len(in) - rangeindex
+
+//@ func Float32ToRegs
+//@   props C19
+//@   mode bv
+//@   ensures [C19] len(result) == 2*len(in)
+//@   ensures [C19] forall k int :: 0 <= k && k < len(in) ==> result[2*k] == hi16(bits32(in[k])) && result[2*k+1] == lo16(bits32(in[k]))
+//@   loop 1:
+//@     invariant -1 <= rangeindex && rangeindex < len(in) || rangeindex == -1
+//@     invariant len(ret) == 2*len(in) && isfresh(ret)
+//@     invariant forall k int :: 0 <= k && k <= rangeindex ==> ret[2*k] == hi16(bits32(in[k])) && ret[2*k+1] == lo16(bits32(in[k]))
+//@     modifies ret
+//@     decreases len(in) - rangeindex
+
+//@ func Float32ToRegsSwapWords
+//@   props C19
+//@   mode bv
+//@   ensures [C19] len(result) == 2*len(in)
+//@   ensures [C19] forall k int :: 0 <= k && k < len(in) ==> result[2*k] == lo16(bits32(in[k])) && result[2*k+1] == hi16(bits32(in[k]))
+//@   loop 1:
+//@     invariant -1 <= rangeindex && rangeindex < len(in) || rangeindex == -1
+//@     invariant len(ret) == 2*len(in) && isfresh(ret)
+//@     invariant forall k int :: 0 <= k && k <= rangeindex ==> ret[2*k] == lo16(bits32(in[k])) && ret[2*k+1] == hi16(bits32(in[k]))
+//@     modifies ret
+//@     decreases len(in) - rangeindex
